@@ -94,16 +94,25 @@ func (m *MemoryTableSource) encodeRow(row map[string]any) []any {
 
 // encodeKey serializes a lookup key into a stable, type-tagged string so that
 // 1 (int) and "1" (string) never collide. Accepts a single value or a
-// []any tuple.
+// []any tuple; a single value v is the 1-tuple []any{v}.
+//
+// Every component is written as "<byte length>:<encoded component>", so no byte
+// inside a component (a separator character in a string key, for instance) can
+// shift a component boundary: two tuples have the same encoding only when they
+// have the same components.
 func encodeKey(key any) string {
-	if vals, ok := key.([]any); ok {
-		parts := make([]string, len(vals))
-		for i, v := range vals {
-			parts[i] = encodeOne(v)
-		}
-		return strings.Join(parts, "\x1f")
+	vals, ok := key.([]any)
+	if !ok {
+		vals = []any{key}
 	}
-	return encodeOne(key)
+	var b strings.Builder
+	for _, v := range vals {
+		part := encodeOne(v)
+		b.WriteString(strconv.Itoa(len(part)))
+		b.WriteByte(':')
+		b.WriteString(part)
+	}
+	return b.String()
 }
 
 func encodeOne(v any) string {
